@@ -8,7 +8,7 @@ def run(tier):
     c.run_pkg(REPO, "./" + pk, os.path.join(REPO, pk), "semaphore", [os.path.join(VERIF, "harness/semaphore/zz_verif_c42.go")], "^VerifC42(Steps|Hooked)$", params=params,
               max_models=8 if q else 30, wall="120s" if q else "3600s", soft_trunc="record", extra_flags=["-solver", "cvc5-int"])
     c.run_pkg(REPO, "./" + pk, os.path.join(REPO, pk), "semaphore", [os.path.join(VERIF, "harness/semaphore/zz_verif_c42.go")], "^VerifC42Racy$", params=params,
-              max_models=0, wall="120s" if q else "3600s", soft_trunc="record", extra_flags=["-solver", "cvc5-int"])
+              max_models=0, wall="120s" if q else "3600s", soft_trunc="record", engine_only=True, extra_flags=["-solver", "cvc5-int"])
     c.assumptions += ["cooperative scheduler: goroutines interleave only at synchronisation operations (mutex, channel, select) — exact for code that follows its lock discipline; data races are outside (WaitEmpty reads size unlocked and is not one of the property's operations)",
                       "weights and sizes range over all values in [0, 2^40)", "primary solver of this check: cvc5 1.0 --incremental --solve-bv-as-int=sum (exact integer encoding of the 64-bit arithmetic; bit-blasting solvers time out on the sums of weights)", "context cancellation is a harness context whose Done channel is closed by the harness",
                       "VerifC42Hooked makes the cancellation race deterministic: the competing Release/SetSize runs from inside the harness context's Err()/Done() methods, i.e. exactly between the waiter's wake-up and its re-locking (or right after it queued itself); replayed natively",
